@@ -134,7 +134,12 @@ Qed.
 (* protocol guard, on states *)
 Definition permit_ok (h : hdr) (s : state) (o : op) : bool :=
   match o with
-  | Permit p => match get_gang s (gang_of h p) with Some x => negb (memZ p (g_bound x)) | None => true end
+  | Permit p => match get_gang s (gang_of h p) with
+                | Some x => negb (memZ p (g_bound x)) && memZ p (g_children x)
+                | None => true end
+  | PostBind p => match get_gang s (gang_of h p) with
+                  | Some x => memZ p (g_children x)
+                  | None => true end
   | _ => true
   end.
 
@@ -193,13 +198,14 @@ Qed.
 
 Lemma all_part_permit h s p : all_part s -> permit_ok h s (Permit p) = true -> all_part (fst (permit h s p)).
 Proof.
-  intros H Hg. unfold permit. unfold permit_ok in Hg.
+  intros H Hg. unfold permit. unfold permit_ok in Hg. cbv zeta.
   destruct (gang_of h p =? 0); [exact H|].
   destruct (get_gang s (gang_of h p)) as [x|] eqn:E; [|exact H].
-  apply negb_true_iff, memZ_nIn in Hg.
+  apply andb_true_iff in Hg. destruct Hg as [Hg Hc].
+  apply negb_true_iff, memZ_nIn in Hg. apply memZ_In in Hc.
   assert (H1 : all_part (put_gang s (gang_of h p) (g_add_assumed p x))).
-  { apply all_part_put; [exact H|]. apply gpart_add_assumed; [|exact Hg]. apply (all_part_get _ _ _ H E). }
-  cbv zeta. match goal with |- all_part (fst (if ?c then _ else _)) => destruct c end; simpl;
+  { apply all_part_put; [exact H|]. apply gpart_add_assumed; [|exact Hg|exact Hc]. apply (all_part_get _ _ _ H E). }
+  match goal with |- all_part (fst (if ?c then _ else _)) => destruct c end; simpl;
   apply all_part_set_fw; exact H1.
 Qed.
 
@@ -228,11 +234,13 @@ Proof.
   apply all_part_reject. exact H.
 Qed.
 
-Lemma all_part_post_bind h s p : all_part s -> all_part (post_bind h s p).
+Lemma all_part_post_bind h s p :
+  all_part s -> permit_ok h s (PostBind p) = true -> all_part (post_bind h s p).
 Proof.
-  intros H. unfold post_bind. destruct (gang_of h p =? 0); [exact H|].
+  intros H Hg. unfold post_bind. destruct (gang_of h p =? 0); [exact H|].
   unfold add_bound. apply all_part_set_sat. apply all_part_upd; [exact H|].
-  intros x _ Hx. apply gpart_add_bound. exact Hx.
+  intros x Ex Hx. unfold permit_ok in Hg. rewrite Ex in Hg. apply memZ_In in Hg.
+  apply gpart_add_bound; assumption.
 Qed.
 
 Lemma all_part_step h s o : all_part s -> permit_ok h s o = true -> all_part (fst (step h s o)).
@@ -246,7 +254,7 @@ Proof.
   - apply all_part_pg_delete; exact H.
   - apply all_part_permit; assumption.
   - apply all_part_unreserve; exact H.
-  - apply all_part_post_bind; exact H.
+  - apply all_part_post_bind; assumption.
   - apply all_part_apf; exact H.
   - exact H.
 Qed.
@@ -272,9 +280,9 @@ Qed.
 
 Lemma permit_guard_view h s o : permit_guard_viol h (view s) o = negb (permit_ok h s o).
 Proof.
-  destruct o; try reflexivity. simpl. rewrite vget_view.
-  destruct (get_gang s (gang_of h p)) as [x|]; simpl; [|reflexivity].
-  rewrite negb_involutive. reflexivity.
+  destruct o; try reflexivity; simpl; rewrite vget_view;
+  destruct (get_gang s (gang_of h p)) as [x|]; simpl; try reflexivity.
+  rewrite negb_andb, negb_involutive. reflexivity.
 Qed.
 
 (* ---------- validity for permit ---------- *)
@@ -305,6 +313,37 @@ Qed.
 Lemma group_validb_spec v grp : group_validb v grp = true <-> group_valid v grp.
 Proof.
   unfold group_validb, group_valid. rewrite forallb_forall. split.
+  - intros H g' Hin. specialize (H g' Hin). destruct (vget v g') as [y|]; [|discriminate].
+    exists y. split; [reflexivity | apply validb_spec; exact H].
+  - intros H g' Hin. destruct (H g' Hin) as [y [E Hy]]. rewrite E. apply validb_spec. exact Hy.
+Qed.
+
+Lemma filter_subset_id (c w : list Z) :
+  (forall q, In q w -> In q c) -> filter (fun q => memZ q c) w = w.
+Proof.
+  induction w as [|a w IH]; intros H; simpl; [reflexivity|].
+  assert (Ha : memZ a c = true) by (apply memZ_In, H; left; reflexivity).
+  rewrite Ha, IH; [reflexivity|]. intros q Hq. apply H. right. exact Hq.
+Qed.
+
+Lemma validb_real_gview s x : gpart x -> validb (real_members (gview_of s x)) = validb (gview_of s x).
+Proof.
+  intros [(_ & _ & _ & _ & _ & Hwc & Hbc & _) _].
+  unfold validb, real_members. cbn [v_init v_policy v_min v_waiting v_bound v_sat v_children gview_of].
+  rewrite (filter_subset_id _ _ Hwc), (filter_subset_id _ _ Hbc). reflexivity.
+Qed.
+
+Lemma group_validb_real_view s grp :
+  all_part s -> group_validb_real (view s) grp = group_validb (view s) grp.
+Proof.
+  intros H. unfold group_validb_real, group_validb. induction grp as [|g' t IH]; simpl; [reflexivity|].
+  rewrite IH, vget_view. destruct (get_gang s g') as [y|] eqn:E; simpl; [|reflexivity].
+  rewrite (validb_real_gview s y (all_part_get s g' y H E)). reflexivity.
+Qed.
+
+Lemma group_validb_real_spec v grp : group_validb_real v grp = true <-> group_valid_real v grp.
+Proof.
+  unfold group_validb_real, group_valid_real. rewrite forallb_forall. split.
   - intros H g' Hin. specialize (H g' Hin). destruct (vget v g') as [y|]; [|discriminate].
     exists y. split; [reflexivity | apply validb_spec; exact H].
   - intros H g' Hin. destruct (H g' Hin) as [y [E Hy]]. rewrite E. apply validb_spec. exact Hy.
@@ -374,23 +413,29 @@ Proof. apply set_eqb_spec. intros x. rewrite sadd_In. simpl. split; intros [H|H]
 Lemma vget_put_same s g x : vget (view (put_gang s g x)) g = Some (gview_of (put_gang s g x) x).
 Proof. rewrite vget_view. unfold get_gang. simpl. rewrite assocZ_putZ_same. reflexivity. Qed.
 
-Lemma check_permit_ok h s p :
-  check_permit h (view s) p (snd (permit h s p)) (view (fst (permit h s p))) = 0.
+Lemma check_permit_ok h strict s p :
+  (strict = true -> all_part (fst (permit h s p))) ->
+  check_permit h strict (view s) p (snd (permit h s p)) (view (fst (permit h s p))) = 0.
 Proof.
+  intros Hstrict. revert Hstrict.
   unfold permit, check_permit. cbv zeta.
   destruct (gang_of h p =? 0) eqn:Eg.
-  - simpl. rewrite set_eqb_refl. reflexivity.
+  - intros _. simpl. rewrite set_eqb_refl. reflexivity.
   - destruct (get_gang s (gang_of h p)) as [x|] eqn:E.
     + cbv zeta.
       set (s1 := put_gang s (gang_of h p) (g_add_assumed p x)).
-      destruct (all_valid s1 (g_group x)) eqn:Ev; cbn [fst snd].
-      * rewrite vget_view. unfold get_gang. cbn [st_gangs set_fw s1 put_gang].
+      destruct (all_valid s1 (g_group x)) eqn:Ev; cbn [fst snd]; intros Hstrict.
+      * assert (Hreal : strict && negb (group_validb_real
+                   (view (set_fw s1 (filter (fun q => negb (in_group h (g_group x) q)) (st_fw s1)))) (g_group x)) = false).
+        { destruct strict; [|reflexivity]. cbn [andb]. rewrite group_validb_real_view by (apply Hstrict; reflexivity).
+          rewrite group_validb_view. change (all_valid s1 (g_group x)) with (all_valid (set_fw s1 (filter (fun q => negb (in_group h (g_group x) q)) (st_fw s1))) (g_group x)) in Ev. rewrite Ev. reflexivity. }
+        rewrite vget_view. unfold get_gang. cbn [st_gangs set_fw s1 put_gang].
         rewrite assocZ_putZ_same. cbn [option_map o_rejected o_res o_allowed is_nil negb gview_of v_group g_group g_add_assumed g_with_sets].
         change (res_success =? res_success) with true. cbv iota.
         rewrite group_validb_view.
         assert (Ev' : all_valid (set_fw s1 (filter (fun q => negb (in_group h (g_group x) q)) (st_fw s1))) (g_group x) = true)
           by exact Ev.
-        rewrite Ev'. cbn [negb]. unfold members, others. cbn [sv_fw view st_fw set_fw s1 put_gang].
+        rewrite Ev'. cbn [negb]. rewrite Hreal. unfold members, others. cbn [sv_fw view st_fw set_fw s1 put_gang].
         rewrite !set_eqb_refl. reflexivity.
       * rewrite vget_view. unfold get_gang. cbn [st_gangs set_fw s1 put_gang].
         rewrite assocZ_putZ_same. cbn [option_map o_rejected o_res o_allowed is_nil negb gview_of v_group g_group g_add_assumed g_with_sets].
@@ -399,7 +444,7 @@ Proof.
         assert (Ev' : all_valid (set_fw s1 (sadd p (st_fw s1))) (g_group x) = false) by exact Ev.
         rewrite Ev'. cbn [sv_fw view st_fw set_fw s1 put_gang].
         rewrite same_set_sadd. reflexivity.
-    + cbn [fst snd]. rewrite vget_view, E. simpl. rewrite set_eqb_refl. reflexivity.
+    + cbn [fst snd]. intros _. rewrite vget_view, E. simpl. rewrite set_eqb_refl. reflexivity.
 Qed.
 
 Lemma must_reject_gview s x : must_reject (gview_of s x) = negb (exempt s x) && g_strict x.
@@ -477,17 +522,18 @@ Proof.
       rewrite vget_view, E. unfold quiet. cbn. rewrite set_eqb_refl. reflexivity.
 Qed.
 
-Lemma check_op_ok h s o :
-  check_op h (view s) o (snd (step h s o)) (view (fst (step h s o))) = 0.
+Lemma check_op_ok h strict s o :
+  (strict = true -> all_part (fst (step h s o))) ->
+  check_op h strict (view s) o (snd (step h s o)) (view (fst (step h s o))) = 0.
 Proof.
-  destruct o; cbn [step check_op fst snd].
+  intros Hstrict. destruct o; cbn [step check_op fst snd] in *.
   - apply check_event_ok. apply fw_pod_event.
   - apply check_event_ok. destruct terminated; [reflexivity | apply fw_pod_event].
   - apply check_event_ok. apply fw_pod_delete.
   - apply check_event_ok. apply fw_pg_add.
   - apply check_event_ok. apply fw_pg_update.
   - apply check_event_ok. apply fw_pg_delete.
-  - apply check_permit_ok.
+  - apply check_permit_ok. exact Hstrict.
   - apply check_unreserve_ok.
   - apply check_event_ok. apply fw_post_bind.
   - apply check_apf_ok.
